@@ -62,6 +62,10 @@ func seenKeys(hh *h.Hist) []string {
 			for k := range mm.Seen {
 				out = append(out, k)
 			}
+		case LikeAnyOther:
+			for k := range mm.D.Seen {
+				out = append(out, k)
+			}
 		case CordonCount:
 			for k := range mm.D.Seen {
 				out = append(out, k)
